@@ -347,10 +347,16 @@ func runC01(c *Ctx) {
 			q := &pathQuery{fn: ev, target: isReturn, stop: func(x ssa.Instruction) bool { return isAtomicAddOn(x, "Interpreter", "evalDepth", -1) }}
 			hit, path := q.after(inc)
 			c.ob("C01-R5", interpPkg+".Interpreter.EvaluateExpression#depth-restored-on-every-exit", inc.Pos(), hit == nil, "a return is reachable after the depth increment without the matching decrement: each such exit leaks budget, so later evaluations fail depending on earlier ones", c.blockPath(path)...)
+			isDec := func(x ssa.Instruction) bool { return isAtomicAddOn(x, "Interpreter", "evalDepth", -1) }
+			leak, lpath := unwindLeak(ev, inc, isDec)
+			c.ob("C01-R5", interpPkg+".Interpreter.EvaluateExpression#depth-restored-when-a-panic-unwinds", inc.Pos(), leak == nil, "evaluation code runs after the depth increment with no deferred decrement registered: a recovered panic leaks budget, so the outcome of later evaluations depends on earlier requests", c.blockPath(lpath)...)
 		} else {
 			c.info("C01-R5", interpPkg+".Interpreter.EvaluateExpression#no-shared-depth-counter", ev.Pos(), "no interpreter-wide depth counter is modified here")
 		}
 	}
+
+	c.rule("C01-R6", "BND: built-in functions and index expressions of both engines keep run-time integers in range before indexing/slicing/allocating (same decision procedure as C04-R12): a builtin that panics for some argument does not compute its documented result")
+	boundsRule(c, "C01-R6", []string{interpPkg, vmPkg}, 6)
 
 	// ---- R4 documented precedence
 	c.rule("C01-R4", "TBL: for every binary operator listed with a precedence in docs/LANGUAGE_SPECIFICATION.md the level Parser.currentBinaryOp returns for its token equals the documented level; precedence climbing is left-associative: parseBinaryExpr's loop exit comparison does not exit at precedence == minPrecedence and the recursive call passes precedence+1")
